@@ -735,6 +735,9 @@ qb_loop_signal_del(qb_loop_t * lp, qb_loop_signal_handle handle)
 	struct qb_loop_sig *sig_clone;
 	struct qb_loop *l = lp;
 	struct qb_loop_item *item;
+	struct qb_list_head *iter;
+	struct qb_list_head *next;
+	int32_t p;
 
 	if (l == NULL) {
 		l = qb_loop_default_get();
@@ -757,15 +760,22 @@ qb_loop_signal_del(qb_loop_t * lp, qb_loop_signal_handle handle)
 		}
 	}
 
-	qb_list_for_each_entry(item, &l->level[sig->p].job_head, list) {
-		if (item->type != QB_LOOP_SIG) {
-			continue;
-		}
-		sig_clone = (struct qb_loop_sig *)item;
-		if (sig_clone->cloned_from == sig) {
-			qb_loop_level_item_del(&l->level[sig->p], item);
-			qb_util_log(LOG_TRACE, "deleting sig in JOBLIST");
-			break;
+	/*
+	 * Every delivery that is still queued has its own clone, and the
+	 * clones sit on the level the registration had when they were made.
+	 */
+	for (p = QB_LOOP_LOW; p <= QB_LOOP_HIGH; p++) {
+		qb_list_for_each_safe(iter, next, &l->level[p].job_head) {
+			item = qb_list_entry(iter, struct qb_loop_item, list);
+			if (item->type != QB_LOOP_SIG) {
+				continue;
+			}
+			sig_clone = (struct qb_loop_sig *)item;
+			if (sig_clone->cloned_from == sig) {
+				qb_loop_level_item_del(&l->level[p], item);
+				qb_util_log(LOG_TRACE, "deleting sig in JOBLIST");
+				free(sig_clone);
+			}
 		}
 	}
 
